@@ -15,7 +15,7 @@ RULE = (
 )
 EXPLANATION = "proof tier: VCs from the real AST of partial_trace with permute_systems seen only through its contract; bounded tier labelled bounded_*"
 TRUSTED = [
-    "mixed-radix rule (digit regrouping in reshape), change of variables on sum-bound digits ranging over a full [0, radix)",
+    "mixed-radix rule (digit regrouping in reshape; re-proved in lean/MixedRadix.lean), change of variables on sum-bound digits ranging over a full [0, radix)",
     "numpy primitives under assumed contracts: np.reshape(order=F), transpose(axes), a[:, :, list(range(0, T*T, T+1))] picks the diagonal of a TxT block, np.sum(axis)",
     "S-set-order: list(set(range(n)) - set(sys)) is ascending (validated by the bounded clause for n <= 8)",
     "S-float-dims: prod_dim / prod_dim_sys, np.ones(k) * x / y, int(float) exact on integral values; scalar/omitted dim only in the bounded tier",
